@@ -26,8 +26,12 @@ def doc_table():
     return t
 
 
+FLAT_PAIRS = [(a, b) for a in FLATS for b in FLATS]
+SCHEDULE = PAIRS + FLAT_PAIRS * 3          # flat pairs are cheap and degenerate-rich: four times as many
+
+
 def make_case(G, i):
-    ka, kb = PAIRS[i % 49]
+    ka, kb = SCHEDULE[i % len(SCHEDULE)]
     R = G.R
     if ka in FLATS and kb in FLATS:
         A, B, cls = G.flat_pair(ka, kb)
@@ -57,7 +61,7 @@ def work(args):
     G = Gen(random.Random(seed))
     out = []
     for i in range(n):
-        A, B, cls = make_case(G, idx * 11 + i)
+        A, B, cls = make_case(G, idx * 62 + i)
         o1 = interlib.observe(impl, A, B)
         o2 = interlib.observe(impl, B, A)
         o3 = interlib.observe(impl, A, B, method=True) if A[0] != 'P' else None
@@ -86,9 +90,9 @@ def run(ctx, scale=1):
     ctx.extra['rule'] = ('all 49 ordered type pairs cycled (positions as in C01/C02/C03), each evaluated as intersection(a,b), intersection(b,a) and '
                          'a.intersection(b); plus None in either slot for every type; non-trivial = non-empty exact intersection')
     doc = doc_table()
-    total = ctx.n(1470, 60000) * scale
+    total = ctx.n(2480, 62000) * scale
     cases = []
-    for part in core.pmap(work, core.chunks(ctx, total, per=49)):
+    for part in core.pmap(work, core.chunks(ctx, total, per=62)):
         cases.extend(part)
     outs = core.model_lines(['inter %s %s' % (tok(A), tok(B)) for A, B, *_ in cases])
     for (A, B, cls, o1, o2, o3), ml in zip(cases, outs):
